@@ -22,10 +22,10 @@ RULE = (
 ASSUMPTIONS = ["the structural predicate is evaluated on per-register walks of the circuit (reg_gate_history) plus validate()",
                "'placed at initialisation' = operations labelled Fixed of type CNOT / MeasurementCNOTandReset in the start circuit, tracked as a "
                "multiset of (type, control, target) because moves copy circuits"]
-REQUIRED_CLASSES = {"moves": ["start:init", "start:solver", "two_qubit_inserted", "removed", "mcr_inserted", "randomize", "idle_emitter_at_initialisation"]}
+REQUIRED_CLASSES = {"moves": ["start:init", "start:solver", "two_qubit_inserted", "removed", "mcr_inserted", "randomize", "idle_emitter_at_initialisation", "remove_op_with_node"]}
 
 MOVES = ["add_emitter_one_qubit_op", "add_emitter_cnot", "replace_photon_one_qubit_op", "replace_emitter_one_qubit_op",
-         "add_photon_one_qubit_op", "remove_op", "add_measurement_cnot_and_reset", "randomize_circuit"]
+         "add_photon_one_qubit_op", "remove_op", "add_measurement_cnot_and_reset", "randomize_circuit", "remove_op_node"]
 
 
 def fixed_signature(circ):
@@ -149,7 +149,13 @@ def check_moves(case, sub="moves"):
         before = gc_nodes(circ)
         with warnings.catch_warnings():
             warnings.simplefilter("ignore")
-            if name == "randomize_circuit":
+            if name == "remove_op_node":
+                # the optional `node` argument: the caller names the node; operations labelled Fixed must still survive
+                ids = sorted(gc_nodes(circ), key=str)
+                if ids:
+                    guarded(sub, name, solver.remove_op, circ, ids[seed % len(ids)])
+                    cl.add("remove_op_with_node")
+            elif name == "randomize_circuit":
                 if not hasattr(solver, "randomize_circuit"):
                     continue
                 circ = guarded(sub, name, solver.randomize_circuit, circ)
